@@ -71,10 +71,9 @@ def run_gosmt(run, tier, scratch, idx):
            "-timeout-ms", str(run.get("timeout_ms", 20000)),
            "-unwind", str(run.get("unwind", 64)),
            "-bounds", run.get("bounds", ""),
-           "-samples", "3",
+           "-samples", "3", "-vio-grace", str(run.get("vio_grace", 40)),
            "-out", out]
-    if run.get("max_seconds"):
-        cmd += ["-max-seconds", str(run["max_seconds"])]
+    cmd += ["-max-seconds", str(run.get("max_seconds", 900 if tier == "quick" else 5400))]
     if run.get("max_paths"):
         cmd += ["-max-paths", str(run["max_paths"])]
     log("  run:", " ".join(cmd[1:]))
@@ -93,7 +92,7 @@ def signature(v):
         d = (v.get("detail") or "").split("\n")[0][:120]
         sig += ":" + d
     if tags:
-        sig += "[" + tags + "]"
+        sig += "{" + tags + "}"
     return sig
 
 
@@ -230,19 +229,41 @@ def native_replay(pkg, items, scratch, attempts=1, timeout=600):
     ovpath = os.path.join(scratch, "overlay-%d.json" % (abs(hash(pkg)) % 100000))
     with open(ovpath, "w") as f:
         json.dump({"Replace": ov}, f)
-    env = dict(GOENV, VERIF_REPLAYS=":".join("%s=%s" % (e, p) for e, p in items),
-               GOCACHE=os.environ.get("GOCACHE", os.path.join(os.path.expanduser("~"), ".cache", "go-build")))
-    cmd = ["go", "test", "-v", "-tags", "verif", "-vet=off", "-count=1", "-overlay", ovpath,
-           "-run", "^TestVerifReplay$", "-timeout", "%ds" % timeout, "./" + pkg.lstrip("./")]
+    env = dict(GOENV, GOCACHE=os.environ.get("GOCACHE", os.path.join(os.path.expanduser("~"), ".cache", "go-build")))
+    binpath = os.path.join(scratch, "replay-%d.test" % (abs(hash(pkg)) % 100000))
+    cmd = ["go", "test", "-c", "-o", binpath, "-tags", "verif", "-vet=off", "-overlay", ovpath, "./" + pkg.lstrip("./")]
     p = subprocess.run(cmd, cwd=REPO, env=env, stdout=subprocess.PIPE, stderr=subprocess.STDOUT, text=True)
     res = {}
-    for line in p.stdout.splitlines():
-        if line.startswith("VERIF-REPLAY "):
-            _, path, rest = line.split(" ", 2)
-            res[path] = rest
-    if not res:
-        log("native replay produced no results:\n" + p.stdout[-3000:])
-    return res, p.stdout
+    outall = p.stdout
+    if p.returncode != 0 or not os.path.exists(binpath):
+        log("native replay: test binary did not build:\n" + p.stdout[-3000:])
+        return res, outall
+    # one process per replay: a fatal crash (out of memory, stack overflow) of the
+    # real code must not hide the other replays
+    for e, path in items:
+        renv = dict(env, VERIF_REPLAYS="%s=%s" % (e, path))
+        try:
+            q = subprocess.run(["sh", "-c", "ulimit -v 12000000; exec \"$0\" -test.run '^TestVerifReplay$' -test.v -test.timeout %ds" % timeout, binpath],
+                               cwd=os.path.join(REPO, pkg), env=renv, stdout=subprocess.PIPE, stderr=subprocess.STDOUT, text=True, timeout=timeout + 30)
+            out = q.stdout
+        except subprocess.TimeoutExpired as ex:
+            out = (ex.stdout or b"").decode("utf-8", "replace") if isinstance(ex.stdout, bytes) else (ex.stdout or "")
+            res[path] = "TIMEOUT"
+        got = False
+        for line in out.splitlines():
+            if line.startswith("VERIF-REPLAY "):
+                _, rp, rest = line.split(" ", 2)
+                res[rp] = rest
+                got = True
+        if not got and path not in res:
+            first = ""
+            for line in out.splitlines():
+                if line.startswith("fatal error:") or line.startswith("panic:") or "cannot allocate" in line or "out of memory" in line:
+                    first = line.strip()
+                    break
+            res[path] = "CRASH " + (first or out.strip().splitlines()[-1] if out.strip() else "no output")
+        outall += out[-1500:]
+    return res, outall
 
 
 def load_known():
@@ -284,6 +305,12 @@ def run_property(pid, tier, seed, cfg, scratch, t0):
     all_vios = []  # (run, violation)
     for idx, run in enumerate(runs):
         summ, rc, err = run_gosmt(run, tier, scratch, idx)
+        if summ is not None and summ.get("stop_reason") == "violation-grace":
+            # exploration was cut short after a violation. If every violation seen is a
+            # listed known finding the rest of the space still has to be explored.
+            sigs = set(signature(v) for v in summ["violations"] or [])
+            if all(any(kf["property"] == pid and fnmatch.fnmatchcase(sg, kf["signature"]) for kf in known.get("findings", [])) for sg in sigs):
+                summ, rc, err = run_gosmt(dict(run, vio_grace=0), tier, scratch, idx)
         if summ is None:
             inconclusive.append("run %s failed to produce a result (rc=%s): %s" % (run["entry"], rc, err[-400:]))
             continue
@@ -312,7 +339,8 @@ def run_property(pid, tier, seed, cfg, scratch, t0):
                                 max_depth=summ["max_depth"], violation_counts=summ["violation_counts"]))
         if not summ["exhaustive"]:
             agg["exhaustive"] = False
-            inconclusive.append("run %s (%s) not exhaustive: %s" % (run["entry"], run.get("bounds", ""), summ["stop_reason"]))
+            if summ["stop_reason"] != "violation-grace":
+                inconclusive.append("run %s (%s) not exhaustive: %s" % (run["entry"], run.get("bounds", ""), summ["stop_reason"]))
         if summ["unknown"]:
             inconclusive.append("run %s: %d solver queries answered unknown" % (run["entry"], summ["unknown"]))
         for e in summ["errors"] or []:
@@ -371,10 +399,10 @@ def run_property(pid, tier, seed, cfg, scratch, t0):
                 ok = r.startswith("FAILED") and v["label"] in r.split(" ", 1)[1].split(",") if r.startswith("FAILED") else False
                 if not ok and r.startswith("FAILED"):
                     ok = True  # a different assertion of the same harness failed natively: still a real failure
-                if not ok and r.startswith("PANIC"):
+                if not ok and (r.startswith("PANIC") or r.startswith("CRASH") or r.startswith("TIMEOUT")):
                     ok = True
             elif v["kind"] in ("panic", "fatal"):
-                ok = r.startswith("PANIC") or r.startswith("FAILED")
+                ok = r.startswith("PANIC") or r.startswith("FAILED") or r.startswith("CRASH")
             elif v["kind"] == "deadlock":
                 ok = not r.startswith("PASSED")
             if ok:
